@@ -197,6 +197,8 @@ impl<'a> Printer<'a> {
                 }
             }
             "tlist" => format!("[{}]", self.ty(&t["e"])),
+            // a generic type variable `*A` (C03 arrival universe); additive node kind
+            "tgen" => format!("*{}", s(t, "n")),
             "tfn" => {
                 let ps: Vec<String> = arr(t, "ps").iter().map(|x| self.ty_nested(x)).collect();
                 let pure = b(t, "pure");
@@ -384,6 +386,8 @@ impl<'a> Printer<'a> {
         self.call_site += 1;
         self.n_call_sites += 1;
         let choice = if self.opts.surface.calls.is_empty() { 0 } else { self.opts.surface.calls[k % self.opts.surface.calls.len()] };
+        // a call node may pin its own surface form (optional field `form`, same numbering); absent = the knob above
+        let choice = e.get("form").and_then(|x| x.as_u64()).map(|x| x as u8).unwrap_or(choice);
         let f = self.base(&e["f"]);
         let args: Vec<String> = arr(e, "args").iter().map(|a| self.arg(a)).collect();
         // sugar is only offered where the callee is a name or a field path; legality of the
